@@ -37,7 +37,7 @@ def model_request(tag, r):
 
 
 def run(exe, judge_except, workdir):
-    rc, out = common.sh([exe], timeout=900)
+    rc, out = common.sh([exe], timeout=240)
     recs = [dict(KV.findall(l)) for l in out.split("\n") if l.startswith("att ")]
     res = {"attempts": len(recs), "rc": rc, "tail": out[-300:], "by_dom": collections.Counter(), "by_kind": collections.Counter(), "model_checked": 0,
            "model_disagrees_with_doc_table": [], "groups": [], "variants": set()}
